@@ -6,6 +6,7 @@ import TJ.Props.C13Gen
 import TJ.Props.StreamGen
 import TJ.Props.C02Gen
 import TJ.Props.C17Gen
+import TJ.Props.C15Gen
 import TJ.Props.C12Gen
 import TJ.Props.C10Gen
 namespace TJ.Props.NonVacuous
@@ -78,5 +79,21 @@ example : ∃ fuel st', callFun prog fuel idx_tinyjambu_prng_init true [(mkPtr 0
   obtain ⟨fuel, st', h, _⟩ := TJ.Props.C17Gen.init_source ⟨#[⟨Array.replicate 96 (0, .undef), 0⟩, ⟨([1, 2, 3] : Bytes).map (·, Lab.pub) |>.toArray, 0⟩], [(List.replicate 32 7, 32)], []⟩
     0 1 (Array.replicate 96 (0, .undef)) _ 0 0 0 [1, 2, 3] rfl (by simp) (by decide) (by simp [ptrBase]) rfl (bytesV_lab _ _ (by decide)) (by simp [ptrBase]) (by decide) (by simp)
   exact ⟨fuel, st', h⟩
+
+/-- the hypotheses of `TJ.Props.C15Gen.generate_source_system` hold in a REACHED state: `tinyjambu_prng_init` on a concrete memory (the source scripted to deliver twice),
+    then `tinyjambu_prng_generate` of 40 bytes (two blocks, the second partial) into a second buffer -/
+example : ∃ fuel1 st1 fuel2 st2 XD out, callFun prog fuel1 idx_tinyjambu_prng_init true [(mkPtr 0 0, .pub), (mkPtr 2 (0 + 0), .pub), (3, .pub)]
+      ⟨#[⟨Array.replicate 96 (0, .undef), 0⟩, ⟨Array.replicate 48 (0, .undef), 0⟩, ⟨([1, 2, 3] : Bytes).map (·, Lab.pub) |>.toArray, 0⟩], [(List.replicate 32 7, 32), (List.replicate 32 9, 32)], []⟩ =
+      .ok .normal #[(1, .pub), (mkPtr 0 0, .pub), (mkPtr 2 (0 + 0), .pub), (3, .pub)] st1 ∧
+    callFun prog fuel2 idx_tinyjambu_prng_generate false [(mkPtr 0 0, .pub), (mkPtr 1 (0 + 4), .pub), (40, .pub)] st1 =
+      .ok .normal #[(0, .pub), (mkPtr 0 0, .pub), (mkPtr 1 (0 + 4), .pub), (40, .pub)] st2 ∧
+    st2.mem[1]? = some ⟨XD, 0⟩ ∧ BytesV XD 4 out ∧ out.length = 40 := by
+  obtain ⟨f1, st1, h1, hent1, hmsz1, ⟨X1, hx1, hx1s, hobj1, hcb1⟩, hoth1⟩ := TJ.Props.C17Gen.init_source
+    ⟨#[⟨Array.replicate 96 (0, .undef), 0⟩, ⟨Array.replicate 48 (0, .undef), 0⟩, ⟨([1, 2, 3] : Bytes).map (·, Lab.pub) |>.toArray, 0⟩], [(List.replicate 32 7, 32), (List.replicate 32 9, 32)], []⟩
+    0 2 (Array.replicate 96 (0, .undef)) _ 0 0 0 [1, 2, 3] rfl (by simp) (by decide) (by simp [ptrBase]) rfl (bytesV_lab _ _ (by decide)) (by simp [ptrBase]) (by decide) (by simp)
+  obtain ⟨XD1, hD1, hD1s, _⟩ := okeep_block (hoth1 1 (by decide))
+  obtain ⟨f2, st2, Xp2, XD2, h2, _, _, _, _, _, d1, d2, d3⟩ := TJ.Props.C15Gen.generate_source_system st1 0 1 X1 XD1 0 0 4 40 0 ⟨_, _, 1, 32, st1.ent⟩ hx1 hobj1 hcb1 rfl hD1 (by decide) (by decide)
+    (by rw [hx1s]; simp [ptrBase]) (by rw [hD1s]; simp [ptrBase]) (by rw [hD1s]; simp) (by rw [hmsz1]; simp)
+  exact ⟨f1, st1, f2, st2, XD2, _, h1, h2, d1, d2, d3⟩
 
 end TJ.Props.NonVacuous
